@@ -207,7 +207,7 @@ Ops ==
   \/ \E i \in Ids : Add(i) \/ Delete(i)
   \/ Batch \/ Import \/ Vacuum \/ Refine \/ Compress \/ Restart
   \/ \E s, t \in Ids, r \in Rels : Link(s, r, t)
-Next == Ops /\ UNCHANGED last
+Next == Ops /\ last' = NoSearch       \* `last' always speaks about the current contents
 
 \* bookkeeping lemmas of the history machine
 Inv_Hist ==
